@@ -32,6 +32,8 @@ pub struct CP {
     pub mutator: u8,
     pub deliveries: u32,
     pub bound_steps: u64,
+    /// deliveries made during setup without anybody draining: fills the iterators' own self-pipes
+    pub prefill_deliveries: u32,
 }
 
 fn fill(fd: i32) {
@@ -106,6 +108,9 @@ pub fn build(p: CP) -> Scenario<Arc<CS>> {
         let so = Signals::new(&[S1]).unwrap();
         let raw = SignalsInfo::<WithRawSiginfo>::new(&[S1]).unwrap();
         let origin = SignalsInfo::<WithOrigin>::new(&[S1]).unwrap();
+        for _ in 0..pp.prefill_deliveries {
+            sched::setup_raise(S1);
+        }
         Arc::new(CS { sig_only: Mutex::new(Some(so)), raw: Mutex::new(Some(raw)), origin: Mutex::new(Some(origin)), flag, keep, ids: Mutex::new(ids) })
     };
     let mutator = p.mutator;
@@ -196,7 +201,7 @@ pub fn build(p: CP) -> Scenario<Arc<CS>> {
     };
     Scenario {
         name: p.name.to_string(),
-        opts: Opts { stale_reads: false, stale_depth: 2, max_spurious: 0, horizon: 60_000, log_ops: false, log_handler_ops: false },
+        opts: Opts { stale_reads: false, stale_depth: 2, max_spurious: 0, horizon: 60_000, log_ops: false, log_handler_ops: false, reduce: false },
         signals: vec![S1, S2],
         setup: Box::new(setup),
         threads: vec![m, d],
@@ -223,11 +228,20 @@ pub fn scenarios(tier: Tier) -> Vec<Item> {
             }
             let name: &'static str = Box::leak(format!("all_actions_vs_{}{}", mname, if full { "_fullpipes" } else { "" }).into_boxed_str());
             v.push(item(
-                build(CP { name, full_pipes: full, mutator: mi as u8, deliveries: 2, bound_steps: if mi == 1 { steps + 2 } else { steps } }),
+                build(CP { name, full_pipes: full, mutator: mi as u8, deliveries: 2, bound_steps: if mi == 1 { steps + 2 } else { steps }, prefill_deliveries: 0 }),
                 b(1, 2),
                 "every built-in action installed; deliveries from another thread and nested (up to 2 deep in time) at every operation boundary of the mutator",
             ));
         }
+    }
+    // the iterators' own self-pipes completely full (nobody drained 1500 earlier deliveries)
+    for (mi, mname) in [(0u8, "registry"), (2u8, "scans_and_recv")] {
+        let name: &'static str = Box::leak(format!("selfpipes_full_vs_{}", mname).into_boxed_str());
+        v.push(item(
+            build(CP { name, full_pipes: true, mutator: mi, deliveries: 2, bound_steps: steps, prefill_deliveries: 1500 }),
+            b(1, 2),
+            "as above after 1500 undrained deliveries: the self-pipes of the three iterator instances are full as well",
+        ));
     }
     v
 }
